@@ -180,6 +180,12 @@ pub fn transcript(c: &PCase) -> String {
             }
             Err(e) => out.push_str(&format!("F{e:?};")),
         }
+        // what the call left in the caller's buffer (after a success and after a refusal alike) is an observable effect
+        out.push('B');
+        for slot in &buf {
+            out.push_str(&kind(slot));
+        }
+        out.push(';');
     }
     for n in &c.nanos {
         if let Ok(v) = n.parse::<i128>() {
